@@ -2,6 +2,8 @@ import ReplicatModel.Retry
 /-!
 Helper lemmas for C12: streams (`Src.read`, `readChunks`, `copyLoop`, `chunkList`, `Sink.write`).
 -/
+set_option linter.unusedSimpArgs false
+set_option linter.unusedVariables false
 namespace Replicat.Retry
 
 /-! ## lists -/
